@@ -63,6 +63,33 @@ trait Feeder {
         true
     }
     fn name(&self) -> &'static str;
+    /// the same input through the decoder's PUBLIC `Decoder::decode` entry point (the one the
+    /// terminal read loop uses), items rendered with Debug; None when there is no such wrapper
+    fn run_public(&self, _chunks: &[&[u8]]) -> Result<Option<Vec<String>>, Fail> {
+        Ok(None)
+    }
+}
+
+fn drive_public<D: surf_n_term::decoder::Decoder>(mut dec: D, chunks: &[&[u8]], what: &str) -> Result<Option<Vec<String>>, Fail>
+where
+    D::Item: std::fmt::Debug,
+    D::Error: std::fmt::Debug,
+{
+    let mut out = Vec::new();
+    for c in chunks {
+        let mut cur = std::io::Cursor::new(*c);
+        let mut steps = 0usize;
+        loop {
+            steps += 1;
+            ensure!(steps < 100_000, format!("{what}/public-api-does-not-terminate"), "decode loop");
+            match dec.decode(&mut cur) {
+                Ok(Some(item)) => out.push(format!("{item:?}")),
+                Ok(None) => break,
+                Err(e) => return Err(Fail::new(format!("{what}/io-error"), format!("{e:?}"))),
+            }
+        }
+    }
+    Ok(Some(out))
 }
 
 struct EventFeeder;
@@ -84,6 +111,9 @@ impl Feeder for EventFeeder {
     fn name(&self) -> &'static str {
         "event"
     }
+    fn run_public(&self, chunks: &[&[u8]]) -> Result<Option<Vec<String>>, Fail> {
+        drive_public(surf_n_term::decoder::TTYEventDecoder::new(), chunks, "event")
+    }
 }
 
 struct CommandFeeder;
@@ -104,6 +134,9 @@ impl Feeder for CommandFeeder {
     }
     fn name(&self) -> &'static str {
         "command"
+    }
+    fn run_public(&self, chunks: &[&[u8]]) -> Result<Option<Vec<String>>, Fail> {
+        drive_public(surf_n_term::decoder::TTYCommandDecoder::new(), chunks, "command")
     }
 }
 
@@ -295,8 +328,49 @@ fn validate(f: &dyn Feeder, input: &[u8], toks: &[Tok], pending: usize) -> Resul
 fn check_feeder(f: &dyn Feeder, input: &[u8], parts: &[Vec<u16>]) -> Result<(Stats, bool), Fail> {
     let name = f.name();
     let (base, base_pending) = f.run(&[input])?;
+    let base_public = f.run_public(&[input])?;
+    if let Some(items) = &base_public {
+        // the public wrapper must report exactly the tokeniser's items (raw bytes as Raw(..))
+        let from_tokens: Vec<String> = base
+            .iter()
+            .map(|t| match (&t.item, &t.raw) {
+                (Some(i), _) => i.clone(),
+                (None, Some(raw)) => format!("Raw({raw:?})"),
+                _ => String::new(),
+            })
+            .collect();
+        if *items != from_tokens {
+            let first = items.iter().zip(from_tokens.iter()).position(|(a, b)| a != b).unwrap_or(items.len().min(from_tokens.len()));
+            return Err(Fail::new(
+                format!("{name}/public-api-differs-from-tokeniser"),
+                format!(
+                    "input \"{}\" (single buffer): Decoder::decode item #{first} is {:?}, the tokeniser produced {:?}",
+                    esc(input),
+                    items.get(first),
+                    from_tokens.get(first)
+                ),
+            ));
+        }
+    }
     let mut cut_inside_item = false;
     let compare = |chunks: &[&[u8]], what: &str| -> Result<(), Fail> {
+        if let Some(base_items) = &base_public {
+            let items = f.run_public(chunks)?.unwrap_or_default();
+            if items != *base_items {
+                let lens: Vec<usize> = chunks.iter().map(|c| c.len()).collect();
+                let first = items.iter().zip(base_items.iter()).position(|(a, b)| a != b).unwrap_or(items.len().min(base_items.len()));
+                return Err(Fail::new(
+                    format!("{name}/chunking-changes-result/public-api"),
+                    format!(
+                        "input \"{}\" split as {:?} ({what}) through Decoder::decode: item #{first} is {:?} (single buffer: {:?})",
+                        esc(input),
+                        lens,
+                        items.get(first),
+                        base_items.get(first)
+                    ),
+                ));
+            }
+        }
         let (toks, pending) = f.run(chunks)?;
         if toks != base || pending != base_pending {
             let lens: Vec<usize> = chunks.iter().map(|c| c.len()).collect();
